@@ -1,1 +1,933 @@
-//! wrapper oracles (under construction)
+//! Oracles for the public API wrappers in lib.rs (find_iter, captures_iter, split,
+//! splitn, try_replacen, Captures accessors): the repository's real wrapper code is
+//! executed; every search it makes is redirected to the symbolic text (the real VM for
+//! fancy patterns, the automaton model for wrapped ones), so the wrappers' control flow
+//! forks with the solver like the VM itself.
+//!
+//! This file is part of /verif (overlay), not of the repository.
+
+use std::string::String;
+use std::vec::Vec;
+
+use crate::corpus::{self, Item, Rng, WorkList};
+use crate::hirmodel;
+use crate::props::{drive, parse_raw, Body, Fail, Obs, PatReport};
+use crate::refsem::{self, Outcome, RProg};
+use crate::symtext::{Cls, Text};
+use crate::symx_api::{self, Built, RunCfg};
+use crate::{Captures, NoExpand, Regex};
+
+fn union_classes(a: &[Cls], b: &[Cls]) -> Vec<Cls> {
+    let mut v: Vec<Cls> = a.to_vec();
+    for c in b {
+        if !v.iter().any(|x| x.id == c.id) {
+            v.push(c.clone());
+        }
+    }
+    v
+}
+
+/// A concrete text with the same UTF-8 layout as `t` (the wrappers only look at the
+/// layout: `next_utf8` and slicing).
+fn placeholder<T: Text + ?Sized>(t: &T) -> String {
+    let mut s = String::new();
+    let mut i = 0;
+    while i < t.len() {
+        let w = hirmodel::char_width(t, i);
+        s.push(match w {
+            1 => 'a',
+            2 => 'é',
+            3 => '€',
+            _ => '😀',
+        });
+        i += w;
+    }
+    s
+}
+
+/// Run `f` with a concrete `&str` standing for `t`: `t` itself when it is concrete,
+/// otherwise a placeholder of the same layout with the symbolic session installed.
+fn with_text<T: Text + ?Sized, R>(b: &Built, t: &T, f: impl FnOnce(&str) -> R) -> R {
+    if let Some(s) = t.as_str() {
+        f(s)
+    } else {
+        let sym = t.as_sym().expect("symbolic text");
+        let ph = placeholder(t);
+        let _g = symx_api::install_session(sym, b.wrap.clone());
+        f(&ph)
+    }
+}
+
+fn err_name(e: &crate::Error) -> String {
+    match e {
+        crate::Error::RuntimeError(crate::RuntimeError::StackOverflow) => "StackOverflow".to_string(),
+        crate::Error::RuntimeError(crate::RuntimeError::BacktrackLimitExceeded) => "BacktrackLimitExceeded".to_string(),
+        other => std::format!("{:?}", other),
+    }
+}
+
+#[derive(Clone, Debug, PartialEq, Eq)]
+enum It {
+    M(usize, usize),
+    E(String),
+}
+
+fn canon_seq(v: &[It]) -> String {
+    let mut s = String::new();
+    for x in v {
+        match x {
+            It::M(a, b) => s.push_str(&std::format!("[{},{}]", a, b)),
+            It::E(e) => s.push_str(&std::format!("E:{};", e)),
+        }
+    }
+    s
+}
+
+/// Drive the real `Matches` iterator to exhaustion (bounded: a correct iterator yields
+/// at most len + 2 items).
+fn real_find_iter(re: &Regex, text: &str) -> (Vec<It>, bool) {
+    let mut out = Vec::new();
+    let cap = text.len() + 4;
+    let mut it = re.find_iter(text);
+    loop {
+        match it.next() {
+            None => return (out, true),
+            Some(Ok(m)) => {
+                let _ = m.as_str();
+                out.push(It::M(m.start(), m.end()));
+            }
+            Some(Err(e)) => out.push(It::E(err_name(&e))),
+        }
+        if out.len() > cap {
+            return (out, false);
+        }
+    }
+}
+
+fn caps_canon(c: &Captures) -> String {
+    let mut s = String::from("M");
+    for i in 0..c.len() {
+        match c.get(i) {
+            None => s.push_str("[-]"),
+            Some(m) => s.push_str(&std::format!("[{},{}]", m.start(), m.end())),
+        }
+    }
+    s
+}
+
+fn real_captures_iter(re: &Regex, text: &str) -> (Vec<It>, Vec<String>, bool) {
+    let mut out = Vec::new();
+    let mut full = Vec::new();
+    let cap = text.len() + 4;
+    let mut it = re.captures_iter(text);
+    loop {
+        match it.next() {
+            None => return (out, full, true),
+            Some(Ok(c)) => {
+                let m = c.get(0);
+                match m {
+                    Some(m) => out.push(It::M(m.start(), m.end())),
+                    None => out.push(It::E("group 0 missing".to_string())),
+                }
+                full.push(caps_canon(&c));
+            }
+            Some(Err(e)) => {
+                out.push(It::E(err_name(&e)));
+                full.push(std::format!("E:{}", err_name(&e)));
+            }
+        }
+        if out.len() > cap {
+            return (out, full, false);
+        }
+    }
+}
+
+fn next_char<T: Text + ?Sized>(t: &T, i: usize) -> usize {
+    if i >= t.len() {
+        i + 1
+    } else {
+        i + hirmodel::char_width(t, i)
+    }
+}
+
+/// Reference iteration: repeatedly take the reference leftmost match from the previous
+/// end; after an empty match step one character; drop an empty match adjacent to the
+/// previous match.  None when the reference gives up (step cap).
+fn ref_find_iter<T: Text + ?Sized>(rp: &RProg, t: &T) -> Option<Vec<It>> {
+    let mut out = Vec::new();
+    let mut last_end = 0usize;
+    let mut last_match: Option<usize> = None;
+    loop {
+        if last_end > t.len() {
+            break;
+        }
+        let skipped = match last_match {
+            Some(lm) => last_end > lm,
+            None => false,
+        };
+        let r = refsem::search(rp, t, last_end, skipped, crate::props::REF_STEP_CAP);
+        let (s, e) = match r.outcome {
+            Outcome::Match(c) => c[0].unwrap(),
+            Outcome::NoMatch => break,
+            _ => return None,
+        };
+        if s == e {
+            last_end = next_char(t, e);
+            if Some(e) == last_match {
+                continue;
+            }
+        } else {
+            last_end = e;
+        }
+        last_match = Some(e);
+        out.push(It::M(s, e));
+        if out.len() > t.len() + 4 {
+            return None;
+        }
+    }
+    Some(out)
+}
+
+// ---------------------------------------------------------------------------
+// C08: find_iter
+
+pub struct FindIterBody<'a> {
+    pub b: &'a Built,
+    pub limited: Option<&'a Built>,
+    pub rp: Option<&'a RProg>,
+}
+
+impl<'a> Body for FindIterBody<'a> {
+    fn positions(&self, _widths: &[usize]) -> Vec<usize> {
+        vec![0]
+    }
+    fn run<T: Text + ?Sized>(&self, t: &T, _pos: usize) -> Obs {
+        let mut o = Obs::default();
+        let (seq, terminated) = with_text(self.b, t, |s| real_find_iter(&self.b.regex, s));
+        o.items.push(canon_seq(&seq));
+        o.matched = seq.iter().any(|x| matches!(x, It::M(..)));
+        let mk = |what: String, pattern: &str, limit: Option<usize>, observed: String, expected: String| Fail {
+            what,
+            op: "find_iter".to_string(),
+            pattern: pattern.to_string(),
+            casei: false,
+            limit,
+            arg: 0,
+            observed,
+            expected,
+        };
+        if !terminated {
+            o.fail = Some(mk("find_iter yields more than len+4 items".to_string(), &self.b.src, None, canon_seq(&seq), "termination".to_string()));
+            return o;
+        }
+        // structure: strictly increasing, non-overlapping, never before the previous end
+        let mut prev: Option<(usize, usize)> = None;
+        let mut after_err = false;
+        for x in &seq {
+            if after_err {
+                o.fail = Some(mk("an item is yielded after an Err item".to_string(), &self.b.src, None, canon_seq(&seq), "nothing after Err".to_string()));
+                return o;
+            }
+            match x {
+                It::E(_) => after_err = true,
+                It::M(s, e) => {
+                    if let Some((ps, pe)) = prev {
+                        if *s < pe || (*s, *e) <= (ps, pe) || *e < pe {
+                            o.fail = Some(mk(
+                                std::format!("match ({},{}) overlaps or does not follow the previous match ({},{})", s, e, ps, pe),
+                                &self.b.src,
+                                None,
+                                canon_seq(&seq),
+                                "strictly increasing, non-overlapping matches".to_string(),
+                            ));
+                            return o;
+                        }
+                    }
+                    if s > e || *e > t.len() {
+                        o.fail = Some(mk("invalid span".to_string(), &self.b.src, None, canon_seq(&seq), "start <= end <= len".to_string()));
+                        return o;
+                    }
+                    prev = Some((*s, *e));
+                }
+            }
+        }
+        // the sequence equals the reference iteration
+        if let Some(rp) = self.rp {
+            match ref_find_iter(rp, t) {
+                None => o.not_covered = Some("reference step cap".to_string()),
+                Some(exp) => {
+                    o.items.push(std::format!("ref={}", canon_seq(&exp)));
+                    if exp != seq {
+                        o.fail = Some(mk(
+                            "find_iter differs from the reference iteration".to_string(),
+                            &self.b.src,
+                            None,
+                            canon_seq(&seq),
+                            canon_seq(&exp),
+                        ));
+                        return o;
+                    }
+                }
+            }
+        }
+        // error histories: with a tiny backtrack limit the items before the first Err are a
+        // prefix of the unlimited sequence and nothing follows the Err
+        if let Some(lb) = self.limited {
+            let (lseq, lterm) = with_text(lb, t, |s| real_find_iter(&lb.regex, s));
+            o.items.push(std::format!("limited={}", canon_seq(&lseq)));
+            let lim = Some(lb.opts.0.backtrack_limit);
+            if !lterm {
+                o.fail = Some(mk("find_iter with a backtrack limit does not terminate".to_string(), &lb.src, lim, canon_seq(&lseq), "termination".to_string()));
+                return o;
+            }
+            let mut k = 0;
+            let mut seen_err = false;
+            for x in &lseq {
+                if seen_err {
+                    o.fail = Some(mk("an item is yielded after an Err item".to_string(), &lb.src, lim, canon_seq(&lseq), "nothing after Err".to_string()));
+                    return o;
+                }
+                match x {
+                    It::E(_) => seen_err = true,
+                    m => {
+                        if seq.get(k) != Some(m) {
+                            o.fail = Some(mk(
+                                "items before the first Err are not a prefix of the unlimited sequence".to_string(),
+                                &lb.src,
+                                lim,
+                                canon_seq(&lseq),
+                                canon_seq(&seq),
+                            ));
+                            return o;
+                        }
+                        k += 1;
+                    }
+                }
+            }
+            if !seen_err && lseq != seq {
+                o.fail = Some(mk("limited run without Err differs from the unlimited sequence".to_string(), &lb.src, lim, canon_seq(&lseq), canon_seq(&seq)));
+            }
+        }
+        o
+    }
+}
+
+// ---------------------------------------------------------------------------
+// C09: coherence of the entry points
+
+pub struct CoherenceBody<'a> {
+    pub b: &'a Built,
+}
+
+impl<'a> Body for CoherenceBody<'a> {
+    fn run<T: Text + ?Sized>(&self, t: &T, pos: usize) -> Obs {
+        let mut o = Obs::default();
+        let re = &self.b.regex;
+        let s = with_text(self.b, t, |s| {
+            let mut parts: Vec<String> = Vec::new();
+            let find = match re.find_from_pos(s, pos) {
+                Ok(Some(m)) => std::format!("M[{},{}]", m.start(), m.end()),
+                Ok(None) => "N".to_string(),
+                Err(e) => std::format!("E:{}", err_name(&e)),
+            };
+            let caps = match re.captures_from_pos(s, pos) {
+                Ok(Some(c)) => match c.get(0) {
+                    Some(m) => std::format!("M[{},{}]", m.start(), m.end()),
+                    None => "M[-]".to_string(),
+                },
+                Ok(None) => "N".to_string(),
+                Err(e) => std::format!("E:{}", err_name(&e)),
+            };
+            parts.push(std::format!("find_from_pos={}", find));
+            parts.push(std::format!("captures_from_pos0={}", caps));
+            if pos == 0 {
+                let im = match re.is_match(s) {
+                    Ok(b) => std::format!("{}", b),
+                    Err(e) => std::format!("E:{}", err_name(&e)),
+                };
+                let f0 = match re.find(s) {
+                    Ok(Some(m)) => std::format!("M[{},{}]", m.start(), m.end()),
+                    Ok(None) => "N".to_string(),
+                    Err(e) => std::format!("E:{}", err_name(&e)),
+                };
+                let c0 = match re.captures(s) {
+                    Ok(Some(c)) => match c.get(0) {
+                        Some(m) => std::format!("M[{},{}]", m.start(), m.end()),
+                        None => "M[-]".to_string(),
+                    },
+                    Ok(None) => "N".to_string(),
+                    Err(e) => std::format!("E:{}", err_name(&e)),
+                };
+                let (fi, _) = real_find_iter(re, s);
+                let (ci, _, _) = real_captures_iter(re, s);
+                parts.push(std::format!("is_match={}", im));
+                parts.push(std::format!("find={}", f0));
+                parts.push(std::format!("captures0={}", c0));
+                parts.push(std::format!("find_iter={}", canon_seq(&fi)));
+                parts.push(std::format!("captures_iter0={}", canon_seq(&ci)));
+            }
+            parts
+        });
+        let get = |k: &str| -> Option<String> {
+            s.iter().find(|x| x.starts_with(&std::format!("{}=", k))).map(|x| x[k.len() + 1..].to_string())
+        };
+        o.items = s.clone();
+        let find = get("find_from_pos").unwrap();
+        o.matched = find.starts_with('M');
+        let mut bad: Option<String> = None;
+        if get("captures_from_pos0").unwrap() != find {
+            bad = Some("captures_from_pos(t,p).get(0) differs from find_from_pos(t,p)".to_string());
+        }
+        if pos == 0 && bad.is_none() {
+            let im = get("is_match").unwrap();
+            let f0 = get("find").unwrap();
+            let c0 = get("captures0").unwrap();
+            let is_err = |x: &str| x.starts_with("E:");
+            if !(is_err(&im) || is_err(&f0) || is_err(&c0)) {
+                let a = im == "true";
+                if a != f0.starts_with('M') || a != c0.starts_with('M') {
+                    bad = Some("is_match, find and captures disagree on whether there is a match".to_string());
+                } else if f0 != c0 {
+                    bad = Some("captures.get(0) differs from find".to_string());
+                }
+            } else if !(is_err(&im) && is_err(&f0) && is_err(&c0)) {
+                bad = Some("one entry point returns Err where another returns a value".to_string());
+            }
+            if bad.is_none() && get("find_iter") != get("captures_iter0") {
+                bad = Some("captures_iter yields different spans than find_iter".to_string());
+            }
+        }
+        if let Some(what) = bad {
+            o.fail = Some(Fail {
+                what,
+                op: "coherence".to_string(),
+                pattern: self.b.src.clone(),
+                casei: false,
+                limit: None,
+                arg: 0,
+                observed: s.join(";"),
+                expected: "mutually coherent entry points".to_string(),
+            });
+        }
+        o
+    }
+}
+
+// ---------------------------------------------------------------------------
+// C10: split / splitn
+
+pub struct SplitBody<'a> {
+    pub b: &'a Built,
+}
+
+fn collect_pieces<'h, I: Iterator<Item = crate::Result<&'h str>>>(target: &'h str, it: I, cap: usize) -> (Vec<It>, bool) {
+    let mut out = Vec::new();
+    for p in it {
+        match p {
+            Ok(p) => {
+                let off = p.as_ptr() as usize - target.as_ptr() as usize;
+                out.push(It::M(off, off + p.len()));
+            }
+            Err(e) => out.push(It::E(err_name(&e))),
+        }
+        if out.len() > cap {
+            return (out, false);
+        }
+    }
+    (out, true)
+}
+
+impl<'a> Body for SplitBody<'a> {
+    fn positions(&self, _widths: &[usize]) -> Vec<usize> {
+        vec![0]
+    }
+    fn run<T: Text + ?Sized>(&self, t: &T, _pos: usize) -> Obs {
+        let mut o = Obs::default();
+        let re = &self.b.regex;
+        let len = t.len();
+        let (matches, split, splitns) = with_text(self.b, t, |s| {
+            let (fi, _) = real_find_iter(re, s);
+            let sp = collect_pieces(s, re.split(s), s.len() + 6);
+            let mut ns = Vec::new();
+            for n in 0..=5usize {
+                ns.push(collect_pieces(s, re.splitn(s, n), s.len() + 6));
+            }
+            (fi, sp, ns)
+        });
+        o.items.push(std::format!("find_iter={}", canon_seq(&matches)));
+        o.items.push(std::format!("split={}", canon_seq(&split.0)));
+        for (n, x) in splitns.iter().enumerate() {
+            o.items.push(std::format!("splitn{}={}", n, canon_seq(&x.0)));
+        }
+        o.matched = !matches.is_empty();
+        if matches.iter().any(|x| matches!(x, It::E(_))) {
+            o.not_covered = Some("search error".to_string());
+            return o;
+        }
+        // model: the substrings between consecutive matches, plus the tail
+        let mut model: Vec<It> = Vec::new();
+        let mut prev = 0usize;
+        for m in &matches {
+            if let It::M(s, e) = m {
+                model.push(It::M(prev, *s));
+                prev = *e;
+            }
+        }
+        model.push(It::M(prev, len));
+        let mk = |what: String, op: &str, arg: usize, observed: String, expected: String| Fail {
+            what,
+            op: op.to_string(),
+            pattern: self.b.src.clone(),
+            casei: false,
+            limit: None,
+            arg,
+            observed,
+            expected,
+        };
+        if !split.1 || split.0 != model {
+            o.fail = Some(mk(
+                "split does not yield exactly the substrings between consecutive find_iter matches".to_string(),
+                "split",
+                0,
+                canon_seq(&split.0),
+                canon_seq(&model),
+            ));
+            return o;
+        }
+        // rebuild: pieces interleaved with matches cover 0..len contiguously
+        let mut at = 0usize;
+        for (i, p) in model.iter().enumerate() {
+            if let It::M(s, e) = p {
+                if *s != at || s > e {
+                    o.fail = Some(mk("pieces and matches do not rebuild the input".to_string(), "split", 0, canon_seq(&split.0), "contiguous cover".to_string()));
+                    return o;
+                }
+                at = *e;
+                if let Some(It::M(ms, me)) = matches.get(i) {
+                    if *ms != at {
+                        o.fail = Some(mk("pieces and matches do not rebuild the input".to_string(), "split", 0, canon_seq(&split.0), "contiguous cover".to_string()));
+                        return o;
+                    }
+                    at = *me;
+                }
+            }
+        }
+        for (n, x) in splitns.iter().enumerate() {
+            let mut exp: Vec<It> = Vec::new();
+            if n > 0 {
+                let k = n.min(model.len());
+                for p in model.iter().take(k - 1) {
+                    exp.push(p.clone());
+                }
+                // the last item is the untouched remainder from the start of the k-th piece
+                if let It::M(s, _) = model[k - 1] {
+                    exp.push(It::M(s, len));
+                }
+            }
+            if !x.1 || x.0 != exp {
+                o.fail = Some(mk(
+                    std::format!("splitn(t, {}) does not yield min(n, pieces) items with the remainder last", n),
+                    "splitn",
+                    n,
+                    canon_seq(&x.0),
+                    canon_seq(&exp),
+                ));
+                return o;
+            }
+        }
+        o
+    }
+}
+
+// ---------------------------------------------------------------------------
+// C11: try_replacen
+
+pub struct ReplaceBody<'a> {
+    pub b: &'a Built,
+    pub limited: Option<&'a Built>,
+}
+
+fn hex(s: &str) -> String {
+    s.as_bytes().iter().map(|b| std::format!("{:02x}", b)).collect()
+}
+
+impl<'a> Body for ReplaceBody<'a> {
+    fn positions(&self, _widths: &[usize]) -> Vec<usize> {
+        vec![0]
+    }
+    fn run<T: Text + ?Sized>(&self, t: &T, _pos: usize) -> Obs {
+        let mut o = Obs::default();
+        let re = &self.b.regex;
+        let ops = ["replacen_noexpand", "replacen_str", "replacen_closure", "replacen_dollar0"];
+        let res = with_text(self.b, t, |s| {
+            let (fi, _) = real_find_iter(re, s);
+            let (ci, _, _) = real_captures_iter(re, s);
+            let mut outs: Vec<(usize, usize, Result<(bool, String), String>, String)> = Vec::new();
+            for n in 0..=3usize {
+                for (k, _) in ops.iter().enumerate() {
+                    let r = match k {
+                        0 => re.try_replacen(s, n, NoExpand("x")),
+                        1 => re.try_replacen(s, n, "x"),
+                        2 => re.try_replacen(s, n, |_: &Captures| "x".to_string()),
+                        _ => re.try_replacen(s, n, "<$0>"),
+                    };
+                    let r2 = match r {
+                        Ok(c) => Ok((matches!(c, std::borrow::Cow::Borrowed(_)), c.to_string())),
+                        Err(e) => Err(err_name(&e)),
+                    };
+                    // model from the matches the same path yields: fast path (k == 0, 1) follows
+                    // find_iter, the slow path captures_iter
+                    let src = if k <= 1 { &fi } else { &ci };
+                    let mut m = String::new();
+                    let mut last = 0usize;
+                    let mut err = None;
+                    let mut cnt = 0usize;
+                    for x in src.iter() {
+                        match x {
+                            It::E(e) => {
+                                err = Some(e.clone());
+                                break;
+                            }
+                            It::M(a, z) => {
+                                if n > 0 && cnt >= n {
+                                    break;
+                                }
+                                m.push_str(&s[last..*a]);
+                                if k == 3 {
+                                    m.push('<');
+                                    m.push_str(&s[*a..*z]);
+                                    m.push('>');
+                                } else {
+                                    m.push('x');
+                                }
+                                last = *z;
+                                cnt += 1;
+                            }
+                        }
+                    }
+                    m.push_str(&s[last..]);
+                    let model = match err {
+                        Some(e) => std::format!("E:{}", e),
+                        None => {
+                            let borrowed = src.is_empty();
+                            std::format!("{}:{}", if borrowed { "B" } else { "O" }, hex(if borrowed { s } else { &m }))
+                        }
+                    };
+                    outs.push((n, k, r2, model));
+                }
+            }
+            (fi, outs)
+        });
+        let (fi, outs) = res;
+        o.matched = !fi.is_empty();
+        o.items.push(std::format!("find_iter={}", canon_seq(&fi)));
+        let mut first_bad: Option<Fail> = None;
+        let mut plain: Vec<Option<String>> = vec![None; 4];
+        for (n, k, r, model) in &outs {
+            let got = match r {
+                Ok((b, s)) => std::format!("{}:{}", if *b { "B" } else { "O" }, hex(s)),
+                Err(e) => std::format!("E:{}", e),
+            };
+            // what is comparable between the placeholder run and the concrete run
+            o.items.push(std::format!("n{}k{}:ok={},len={}", n, k, got == *model, match r { Ok((_, s)) => s.len() as i64, Err(_) => -1 }));
+            if first_bad.is_some() {
+                continue;
+            }
+            if got != *model {
+                // an Err raised only after the limit was reached is allowed to differ: the model
+                // stops at the limit too, so any difference is a finding
+                first_bad = Some(Fail {
+                    what: std::format!("try_replacen(limit {}) with replacer {} does not rewrite exactly the first n matches", n, ops[*k]),
+                    op: ops[*k].to_string(),
+                    pattern: self.b.src.clone(),
+                    casei: false,
+                    limit: None,
+                    arg: *n,
+                    observed: got.clone(),
+                    expected: model.clone(),
+                });
+                continue;
+            }
+            // the three $-free replacers agree
+            if *k <= 2 {
+                match &plain[*n] {
+                    None => plain[*n] = Some(got.clone()),
+                    Some(p) => {
+                        if *p != got {
+                            first_bad = Some(Fail {
+                                what: std::format!("NoExpand, plain string and closure replacers disagree for limit {}", n),
+                                op: ops[*k].to_string(),
+                                pattern: self.b.src.clone(),
+                                casei: false,
+                                limit: None,
+                                arg: *n,
+                                observed: got.clone(),
+                                expected: p.clone(),
+                            });
+                        }
+                    }
+                }
+            }
+        }
+        o.fail = first_bad;
+        if o.fail.is_some() {
+            return o;
+        }
+        // a search error must come back as Err, not as a panic (a panic is caught by the driver)
+        if let Some(lb) = self.limited {
+            let r = with_text(lb, t, |s| {
+                let a = lb.regex.try_replacen(s, 0, NoExpand("x")).map(|c| c.len()).map_err(|e| err_name(&e));
+                let b = lb.regex.try_replacen(s, 0, "<$0>").map(|c| c.len()).map_err(|e| err_name(&e));
+                (a, b)
+            });
+            o.items.push(std::format!("limited={:?}", r));
+        }
+        o
+    }
+}
+
+// ---------------------------------------------------------------------------
+// C16: group metadata
+
+pub struct MetaBody<'a> {
+    pub b: &'a Built,
+    pub names: Vec<(String, usize)>,
+}
+
+pub fn meta_canon(re: &Regex, names: &[(String, usize)], s: &str, pos: usize) -> String {
+    let mut parts: Vec<String> = Vec::new();
+    let cl = re.captures_len();
+    parts.push(std::format!("captures_len={}", cl));
+    match re.captures_from_pos(s, pos) {
+        Ok(Some(c)) => {
+            parts.push(std::format!("len={}", c.len()));
+            let gets: Vec<String> = (0..c.len() + 2)
+                .map(|i| match c.get(i) {
+                    Some(m) => std::format!("[{},{}]", m.start(), m.end()),
+                    None => "[-]".to_string(),
+                })
+                .collect();
+            parts.push(std::format!("get={}", gets.join("")));
+            let iters: Vec<String> = c
+                .iter()
+                .map(|m| match m {
+                    Some(m) => std::format!("[{},{}]", m.start(), m.end()),
+                    None => "[-]".to_string(),
+                })
+                .collect();
+            parts.push(std::format!("iter={}", iters.join("")));
+            let nm: Vec<String> = names
+                .iter()
+                .map(|(n, i)| {
+                    let a = c.name(n).map(|m| (m.start(), m.end()));
+                    let b = c.get(*i).map(|m| (m.start(), m.end()));
+                    std::format!("{}:{}", n, if a == b { "same" } else { "DIFFERENT" })
+                })
+                .collect();
+            parts.push(std::format!("name={}", nm.join(",")));
+        }
+        Ok(None) => parts.push("N".to_string()),
+        Err(e) => parts.push(std::format!("E:{}", err_name(&e))),
+    }
+    parts.join(";")
+}
+
+impl<'a> Body for MetaBody<'a> {
+    fn run<T: Text + ?Sized>(&self, t: &T, pos: usize) -> Obs {
+        let mut o = Obs::default();
+        let s = with_text(self.b, t, |s| meta_canon(&self.b.regex, &self.names, s, pos));
+        o.items.push(s.clone());
+        o.matched = s.contains(";len=");
+        if !o.matched {
+            return o;
+        }
+        let field = |k: &str| -> String {
+            s.split(';').find(|x| x.starts_with(&std::format!("{}=", k))).map(|x| x[k.len() + 1..].to_string()).unwrap_or_default()
+        };
+        let cl: usize = field("captures_len").parse().unwrap_or(usize::MAX);
+        let len: usize = field("len").parse().unwrap_or(usize::MAX - 1);
+        let get = field("get");
+        let iter = field("iter");
+        let mut bad: Option<String> = None;
+        if len != cl {
+            bad = Some(std::format!("Captures::len {} differs from Regex::captures_len {}", len, cl));
+        } else if !get.starts_with(&iter) {
+            bad = Some("iter() does not yield len() items equal to get(i)".to_string());
+        } else if get[iter.len()..] != *"[-][-]" {
+            bad = Some("get(i) for i >= len is not None".to_string());
+        } else if get.starts_with("[-]") {
+            bad = Some("get(0) is None on a successful search".to_string());
+        } else if field("name").contains("DIFFERENT") {
+            bad = Some("name(n) differs from get(index of n)".to_string());
+        }
+        if let Some(what) = bad {
+            o.fail = Some(Fail {
+                what,
+                op: "captures_meta".to_string(),
+                pattern: self.b.src.clone(),
+                casei: false,
+                limit: None,
+                arg: 0,
+                observed: s,
+                expected: "consistent group metadata".to_string(),
+            });
+        }
+        o
+    }
+}
+
+// ---------------------------------------------------------------------------
+// processing
+
+fn count_groups(e: &crate::Expr) -> usize {
+    use crate::Expr::*;
+    match e {
+        Group(c) => 1 + count_groups(c),
+        Concat(v) | Alt(v) => v.iter().map(count_groups).sum(),
+        LookAround(c, _) | AtomicGroup(c) => count_groups(c),
+        Repeat { child, .. } => count_groups(child),
+        Conditional { condition, true_branch, false_branch } => count_groups(condition) + count_groups(true_branch) + count_groups(false_branch),
+        _ => 0,
+    }
+}
+
+pub fn process_wrappers(cfg: &RunCfg, item: &Item, rep: &mut PatReport) {
+    let tree = match parse_raw(&item.pattern) {
+        Ok(t) => t,
+        Err(e) => {
+            rep.status = std::format!("rejected:{}", e);
+            return;
+        }
+    };
+    let b = match symx_api::build(&item.pattern, false, None) {
+        Ok(b) => b,
+        Err(e) => {
+            rep.status = if e.starts_with("SYMX") { std::format!("error:{}", e) } else { std::format!("rejected:{}", e) };
+            return;
+        }
+    };
+    rep.insn_kinds = b.insn_kinds;
+    rep.fancy = b.fancy;
+    rep.tags = crate::props::structural_tags(&tree.expr);
+    let rp = refsem::build(&tree.expr);
+    if let Some(u) = &rp.unsupported {
+        rep.status = std::format!("skipped:{}", u);
+        return;
+    }
+    let classes = union_classes(&b.classes, &rp.classes);
+    match cfg.prop.as_str() {
+        "C08" => {
+            if rp.has_f1 && item.gen != "f1-witness" {
+                rep.status = "skipped:F1 class (unbounded repeat over a body that can match empty)".to_string();
+                return;
+            }
+            // conditionals are C15's subject; their known finding would resurface here
+            let use_ref = !rp.has_cond;
+            let limited = if b.fancy { symx_api::build(&item.pattern, false, Some(1 + (item.pattern.len() % 3))).ok() } else { None };
+            // the second build registers its own delegate models; keep both alive
+            let body = FindIterBody { b: &b, limited: limited.as_ref(), rp: if use_ref { Some(&rp) } else { None } };
+            drive(&cfg.prop, &body, &classes, cfg.n, cfg, rep);
+        }
+        "C09" => {
+            let body = CoherenceBody { b: &b };
+            drive(&cfg.prop, &body, &classes, cfg.n, cfg, rep);
+        }
+        "C10" => {
+            let body = SplitBody { b: &b };
+            drive(&cfg.prop, &body, &classes, cfg.n, cfg, rep);
+        }
+        "C11" => {
+            let limited = if b.fancy { symx_api::build(&item.pattern, false, Some(1)).ok() } else { None };
+            let body = ReplaceBody { b: &b, limited: limited.as_ref() };
+            drive(&cfg.prop, &body, &classes, cfg.n, cfg, rep);
+        }
+        "C16" => {
+            // concrete facts about the pattern
+            let ngroups = 1 + count_groups(&tree.expr);
+            let cl = b.regex.captures_len();
+            let names: Vec<Option<String>> = b.regex.capture_names().map(|n| n.map(|s| s.to_string())).collect();
+            let mut named: Vec<(String, usize)> = tree.named_groups.iter().map(|(k, v)| (k.clone(), *v)).collect();
+            named.sort();
+            let mut bad: Option<String> = None;
+            if cl != ngroups {
+                bad = Some(std::format!("captures_len {} but the pattern has {} groups (+1)", cl, ngroups - 1));
+            } else if names.len() != cl {
+                bad = Some(std::format!("capture_names yields {} entries, captures_len is {}", names.len(), cl));
+            } else {
+                for (n, i) in &named {
+                    if names.get(*i).cloned().flatten().as_deref() != Some(n.as_str()) {
+                        bad = Some(std::format!("capture_names does not have {} at index {}", n, i));
+                    }
+                }
+                let named_count = names.iter().filter(|x| x.is_some()).count();
+                if bad.is_none() && named_count != named.len() {
+                    bad = Some("capture_names has names the pattern does not define".to_string());
+                }
+            }
+            if let Some(what) = bad {
+                rep.candidates.push(crate::props::Cand {
+                    prop: cfg.prop.clone(),
+                    what,
+                    op: "names_meta".to_string(),
+                    pattern: item.pattern.clone(),
+                    casei: false,
+                    limit: None,
+                    text: Vec::new(),
+                    pos: 0,
+                    arg: 0,
+                    observed: std::format!("{};{:?}", cl, names),
+                    expected: std::format!("{} groups, names {:?}", ngroups, named),
+                });
+                return;
+            }
+            let body = MetaBody { b: &b, names: named };
+            drive(&cfg.prop, &body, &classes, cfg.n, cfg, rep);
+        }
+        _ => {}
+    }
+}
+
+const ATOMS_SMALL: [&str; 4] = ["a", "b", ".", "[ab]"];
+const OPS_QUICK: [&str; 11] = ["cap", "?", "*", "+", "*?", "{2}", "{1,2}", "atomic", "(?=", "(?!", "(?<="];
+
+pub fn work_list(cfg: &RunCfg) -> Option<WorkList> {
+    let thorough = cfg.tier == "thorough";
+    let mut fixed: Vec<Item> = Vec::new();
+    let feats = match cfg.prop.as_str() {
+        "C08" | "C10" | "C11" => corpus::FEATS_C01 | corpus::F_CONTG,
+        "C09" => corpus::FEATS_ALL,
+        "C16" => corpus::FEATS_ALL | corpus::F_NAMED,
+        _ => return None,
+    };
+    for w in corpus::WITNESSES.iter() {
+        fixed.push(Item::new(w, "witness"));
+    }
+    for w in [
+        "", "a*", "a*?", "\\b", "(?=a)", "\\G\\d*", "\\Ga", "\\G", "a|\\G", "\\Ga|b", "(?:\\Ga)+", "a\\Kb", "\\Ka", "(?<=a)\\Kb", "a|(?<=\\Ka)b", "(?=a\\K)", "x*(?=b)", "(?m:^)", "$", "\\d*", "(a)|b", "(?<n>a)|(?<m>b)",
+        "(?<year>\\d)(?<m>-)?", "(a)(b)?(c)*", "é*", "(?<=é)", "\\b|a", "(?!a)", "a??", "(?:a|\\G)b", "[ab]*?(?=b)", "(?>a*)\\b", "\\G(?=a)",
+    ]
+    .iter()
+    {
+        fixed.push(Item::new(w, "witness"));
+    }
+    let ex = corpus::exhaustive(&ATOMS_SMALL, &OPS_QUICK, if thorough { 4 } else { 3 });
+    for p in ex {
+        fixed.push(Item::new(&p, "exhaustive"));
+    }
+    let fillers = corpus::exhaustive(&ATOMS_SMALL, &OPS_QUICK, 2);
+    for ctx in ["\\GH", "H\\K", "(?:H)|\\G", "(?<n>H)", "(H)(?<m>b)?", "H|", "(?:H)*?"].iter() {
+        for f in &fillers {
+            let is_alt = f.contains('|') && !f.starts_with('(');
+            let s = if is_alt { ctx.replace("H", &std::format!("(?:{})", f)) } else { ctx.replace("H", f) };
+            fixed.push(Item::new(&s, "context-x-filler"));
+        }
+    }
+    Some(WorkList { fixed, random_enabled: true, feats, max_depth: if thorough { 4 } else { 3 } })
+}
+
+pub fn random_item(cfg: &RunCfg, w: &WorkList, rng: &mut Rng, _k: usize) -> Option<Item> {
+    match cfg.prop.as_str() {
+        "C08" | "C09" | "C10" | "C11" | "C16" => Some(Item::new(&corpus::random_pattern(rng, w.feats, w.max_depth), "random")),
+        _ => None,
+    }
+}
